@@ -43,13 +43,14 @@ class Job:
 
 
 class Unit:
-    def __init__(self, plan, name, shim, specs=(), harness=(), sroa=False, defines=(), srcs=(), maxb=32, tier='quick'):
+    def __init__(self, plan, name, shim, specs=(), harness=(), sroa=False, inline=False, defines=(), srcs=(), maxb=32, tier='quick'):
         self.plan = plan
         self.name = name
         self.shim = shim              # path relative to props/<id>/ (C++ TU including the real headers)
         self.specs = list(specs)
         self.harness = list(harness)  # C files #included after the generated C
-        self.sroa = sroa
+        self.sroa = sroa or inline   # IR is post-processed by opt
+        self.inline = inline         # -O1 -disable-llvm-passes, then opt -passes=inline,sroa,mem2reg (loop-free shim-level contracts)
         self.defines = list(defines)
         self.srcs = list(srcs)        # extra /repo .cpp files compiled into the same module
         self.maxb = maxb
